@@ -49,7 +49,7 @@ FIELDS = ["meta.package", "meta.recipe", "build.date", "metaEnv.LICENSE", "metaE
 def plan(tier):
     if tier == "thorough":
         return {"cases": 6000, "timeout": 400, "wall_budget": 1500, "recheck": 6, "nproc": 6}
-    return {"cases": 120, "timeout": 300, "wall_budget": 60, "recheck": 3, "nproc": 6}
+    return {"cases": 160, "timeout": 300, "wall_budget": 100, "recheck": 3, "nproc": 6}
 
 # ---------------------------------------------------------------------------
 # expression ASTs
